@@ -130,7 +130,8 @@ func enterFuncShape(f *ast.File) bool {
 
 // predeclareShape reports whether compilePkgs enters the names of a package's functions into the table of globals
 // before it compiles the package (the Resolve model's `predeclare`): the loop over the packages starts with
-// declareFuncs(g, tok), and declareFuncs creates the key <export>.<name> for every "function" node of the package.
+// declareFuncs(g, tok), and declareFuncs creates the key <export>.<name> for every function, variable and constant declared at the top of the package
+// (also inside var ( ... ) groups).
 func predeclareShape(f *ast.File) bool {
 	cp, df := findFunc(f, "compilePkgs"), findFunc(f, "declareFuncs")
 	if cp == nil || df == nil {
@@ -150,7 +151,8 @@ func predeclareShape(f *ast.File) bool {
 	body := squash(src(df.Body))
 	for _, want := range []string{
 		`iftok.Symbol=="package"&&len(tok.Tokens)>0&&tok.Tokens[len(tok.Tokens)-1].Text!=""{export=tok.Tokens[len(tok.Tokens)-1].Text+"."`,
-		`for_,tok:=rangepkg.Tokens{iftok.Symbol=="function"&&len(tok.Tokens)>0{g.Index(export+tok.Tokens[0].Text)}}`,
+		`declare=func(toks[]*token){for_,tok:=rangetoks{switch{casetok.Symbol=="function"&&len(tok.Tokens)>0:g.Index(export+tok.Tokens[0].Text)case(tok.Symbol=="var"||tok.Symbol==":="||tok.Symbol=="const")&&len(tok.Tokens)>0:for_,name:=rangetok.Tokens[0].Tokens{ifname.Text!="_"{g.Index(export+name.Text)}}casetok.Symbol=="block":declare(tok.Tokens)}}}`,
+		`declare(pkg.Tokens)`,
 	} {
 		if !strings.Contains(body, want) {
 			return false
